@@ -176,3 +176,46 @@ Proof.
     destruct (cargs Q args) as [rs log]. cbn [fst] in Ha. subst rs.
     rewrite Hex. cbn zeta. rewrite Hov. reflexivity.
 Qed.
+
+(* ------------------------------------------------------------------------- *)
+(* accumulator loops                                                         *)
+(* ------------------------------------------------------------------------- *)
+Lemma zsum_firstn_S g r j : zsum (firstn (S j) (g :: r)) = g + zsum (firstn j r).
+Proof. reflexivity. Qed.
+
+Lemma acc_loop_spec Q : 0 < Q -> forall gs acc a b n,
+  acc <= Q -> acc_loop Q acc gs = (a, b, n) ->
+  (n <= length gs)%nat /\
+  a = acc + zsum (firstn n gs) /\
+  (forall j, (j < n)%nat -> acc + zsum (firstn j gs) <= Q) /\
+  (b = true -> (1 <= n)%nat /\ Q < a /\ a <= Q + nth (n - 1) gs 0) /\
+  (b = false -> n = length gs /\ a <= Q).
+Proof.
+  intro HQ. induction gs as [|g r IH]; intros acc a b n Hacc H.
+  - cbn in H. injection H as <- <- <-. cbn. repeat split; intros; try lia; try congruence.
+  - cbn [acc_loop] in H. rewrite (over_quota_fits Q _ HQ) in H. unfold fits in H.
+    destruct (acc + g <=? Q) eqn:E; cbn [negb] in H.
+    + destruct (acc_loop Q (acc + g) r) as [[a' b'] n'] eqn:El. injection H as <- <- <-.
+      destruct (IH (acc + g) a' b' n' ltac:(lia) El) as (H1 & H2 & H3 & H4 & H5).
+      cbn [length]. split; [lia|]. split; [rewrite zsum_firstn_S; lia|]. split; [|split].
+      * intros j Hj. destruct j as [|j]; [cbn; lia|]. rewrite zsum_firstn_S.
+        specialize (H3 j ltac:(lia)). lia.
+      * intro Hb. destruct (H4 Hb) as (Ha & Hb' & Hc). split; [lia|]. split; [exact Hb'|].
+        replace (S n' - 1)%nat with (S (n' - 1)) by lia. cbn [nth]. exact Hc.
+      * intro Hb. destruct (H5 Hb) as [Ha Hb']. split; [lia|exact Hb'].
+    + injection H as <- <- <-. cbn [length]. split; [lia|]. split; [cbn; lia|]. split; [|split].
+      * intros j Hj. assert (j = O) by lia. subst j. cbn. lia.
+      * intros _. cbn [nth Nat.sub]. split; [lia|]. split; lia.
+      * discriminate.
+Qed.
+
+Lemma accumulator_bounded Q a0 gs : 0 < Q -> a0 <= Q ->
+  let '(a, raised, n) := acc_loop Q a0 gs in
+  (n <= length gs)%nat /\
+  a = a0 + zsum (firstn n gs) /\
+  (forall j, (j < n)%nat -> a0 + zsum (firstn j gs) <= Q) /\
+  (raised = true -> (1 <= n)%nat /\ Q < a /\ a <= Q + nth (n - 1) gs 0) /\
+  (raised = false -> n = length gs /\ a <= Q).
+Proof.
+  intros HQ Ha. destruct (acc_loop Q a0 gs) as [[a b] n] eqn:E. exact (acc_loop_spec Q HQ gs a0 a b n Ha E).
+Qed.
